@@ -93,6 +93,15 @@ def _file_body(draw, heads, globals_all, file_labels, depth, files_left, marker)
             marker['n'] = sub_marker['n']
             body.insert(draw(st.integers(0, len(body))), {'t': 'include', 'file': fname, 'items': sub})
         items += body
+        if heads and draw(st.integers(0, 3)) == 0:
+            # a region opened inside the taken branch of a conditional block stays open after the block
+            h2 = heads.pop(0)
+            marker['n'] += 1
+            loc = draw(st.sampled_from(['.' + b for b in BASES]))
+            items += [{'t': 'if', 'lhs': ['num', 1, 'dec']}, {'t': 'label', 'name': h2},
+                      {'t': 'data', 'd': '.byte', 'vals': [['num', marker['n'] & 0xFF, 'hex$']]},
+                      {'t': 'else'}, {'t': 'label', 'name': 'ghost'}, {'t': 'endif'},
+                      {'t': 'label', 'name': loc}, probe(loc), {'t': 'data', 'd': '.byte', 'vals': [['num', 0x33, 'hex$']]}]
         if draw(st.integers(0, 4)) == 0:
             items.append({'t': 'memzone', 'zone': 'GLOBAL'})
             items.append(probe(draw(st.sampled_from(list(globals_all)))))
